@@ -22,7 +22,13 @@ def variant(case, v):
             r.shuffle(c["inputs"][p])
     # a cartesian/dot combinator must see each of its ports deliver first in some variant
     lag = [s for s in c["steps"] if s["n"] in ("/da", "/db")]
-    if len(lag) == 2 and v != 0:
+    if c.get("bcast") and len(lag) == 2:
+        # the non-scattered (parent-tagged) token reaches the dot product before, between or after the scattered ones
+        for s in lag:
+            s.pop("hold", None)
+        if v != 0:
+            lag[r.randrange(2)]["hold"] = True
+    elif len(lag) == 2 and v != 0:
         first = r.randrange(2)
         lag[first]["yields"], lag[1 - first]["yields"] = 0, r.choice([8, 20, 40])
     return c
@@ -42,7 +48,9 @@ class C05(Prop):
         "on the round function or the graph; (b) composition: in an acyclic network of order-insensitive processes "
         "(output bags a function of input bags) any two complete behaviours carry equal bags on every port. "
         "Order-insensitivity is a theorem for GatherStep, LoopOutputStep, the flat dot product and the cartesian product "
-        "(C05_contract_*: corollaries of the C01/C06/C02 models, in their own token types); C05_mixed_bags_partial links "
+        "(C05_contract_*: corollaries of the C01/C06/C02 models, in their own token types); for the network scatter -> "
+        "transform -> gather of log machines every fully terminated execution delivers exactly the transformed list "
+        "(C05_scatter_gather_outputs, no hypothesis on the steps); C05_mixed_bags_partial links "
         "the operational network of log machines to such per-machine statements; it stays an assumption for "
         "ExecuteStep with concurrent jobs, LoopCombinatorStep and the embedding of those models into the network's "
         "histories; for tag-grouping steps it needs the shape "
@@ -54,7 +62,8 @@ class C05(Prop):
     TECHNIQUE = ("Coq proof (diamond property => unique maximal execution; induction over the topological order for "
                  "bags) + vm_compute correspondence against StreamFlowExecutor.run() under permuted schedules")
     RULE = ("each case = one generated workflow (as C04, no failure; shape-regular DAGs of Transformer/Conditional "
-            "steps, and scatter/gather/dot/cartesian graphs) x 4 variants (schedule seed, suspension points, order of "
+            "steps, scatter/gather/dot/cartesian graphs, a dot product of a scattered and a non-scattered port whose token "
+            "arrives before or after all scattered ones) x 4 variants (schedule seed, suspension points, order of "
             "the injected tokens). Non-trivial = >=2 steps and >=2 tags. Distinct = distinct canonical JSON.")
     TRUSTED = ("model: Net/Model.v (see C04); asyncio, aiosqlite, SQLite not modelled, only exercised",
                "output values are read from token_list of the workflow output ports; run()'s return value keeps only "
